@@ -205,6 +205,11 @@ def plan(tier, seed):
             fam2 = dict(fam)
             fam2['shape'] = [4, 2, 2]
             P.append({'fam': fam2, 'changes': {k: v for k, v in ADDON_GAIN.items() if k != 'Construction Years'}, 'tag': 'addon-cy2'})
+    # closed-loop (SBT) runs print through the standard writer with their own well-field lines
+    for fam in F.sbt_grid(shapes=((6, 2, 1),) if tier == 'quick' else ((6, 2, 1), (3, 4, 2))):
+        P.append({'fam': fam, 'changes': {}})
+        for st in STRUCT[:5] + STRUCT[11:13]:
+            P.append({'fam': fam, 'changes': dict(st)})
     return P
 
 
